@@ -479,6 +479,60 @@ def run_r6(ctx, rule):
         rule.check(not bad, "%s/error-leaves-cursor" % nid, "%s (error type %s, located by the caller at the cursor) commits an error only with the cursor still on the token%s [outcomes: %s]" % (short(nid), ret["targs"][1].rsplit("::", 1)[-1], "" if not bad else " -- but an outcome that may be an error has advanced", ", ".join("%s%s" % (sh, "+moved" if st else "") for sh, st in shapes)), f.loc())
     rule.note("caller_located_tokens", n)
 
+# ---- R7 -------------------------------------------------------------------------------------------
+class MarkedConsumed(Auto):
+    """per token function: U no mark set here; S0 mark set, marked token not consumed; S1 the marked token was consumed.
+    A cursor-based give_up in S1 reports behind the token the function marked."""
+
+    name = "marked-token-consumed"
+
+    def __init__(self):
+        self.viol = {}
+
+    def initial(self):
+        return "U"
+
+    def event(self, state, ev, where):
+        if ev[0] != "prim":
+            return state
+        if ev[1] == "set_mark":
+            return "S0"
+        if ev[1] == "advance" and state == "S0":
+            n = ev[2][1] if len(ev[2]) > 1 else TOP
+            if not (n[0] == "i" and n[1] == 0):
+                return "S1"
+        if ev[1] == "give_up" and state == "S1":
+            fn = where[1]
+            self.viol.setdefault(norm(fn.id), fn.loc(where[2]))
+        return state
+
+
+def run_r7(ctx, rule):
+    """A token function that sets the mark in front of its token and then consumes the token has the mark for one
+    purpose: errors about that token.  Raising such an error with the cursor-based `give_up` points behind the
+    token (and its trailing blanks).  Decided per token function (typestate): no `give_up` event once the marked
+    token was consumed; `give_up_at(mark)` is the form that is right there."""
+    facts = ctx.facts
+    n = 0
+    for f in sorted(token_fns(facts), key=lambda x: x.id):
+        nid = norm(f.id)
+        if not any(norm(util.cname(t)) in (DR + "set_mark", DR + "set_mark_to_position") for _, t in f.calls()):
+            continue
+        auto = MarkedConsumed()
+        eng = Engine(facts, auto)
+        try:
+            eng.summary(scan.root_key(facts, f.id), "U", tuple(TOP for _ in range(f.argc)))
+        except (A.Recursion, A.Imprecise, A.F.FactError) as e:
+            rule.bad("%s/engine" % nid, "analysis failed: %r" % e, f.loc(), kind="unmodelled-idiom")
+            continue
+        n += 1
+        if auto.viol:
+            for k, loc in sorted(auto.viol.items()):
+                rule.bad("%s/cursor-error-behind-marked-token/%s" % (nid, short(k)), "%s marks its token, consumes it, and then %s raises an error at the cursor: the column lies behind the token (give_up_at(mark) points at it)" % (short(nid), short(k)), loc)
+        else:
+            rule.ok("%s: once the marked token is consumed, errors are raised at the mark only" % short(nid), f.loc())
+    rule.note("marking_token_functions", n)
+
 
 def run(ctx):
     r1 = ctx.rule("C08-R1", "mark() is read only after set_mark() for the current token on every path from every API root", floor=8)
@@ -489,6 +543,8 @@ def run(ctx):
     run_r3(ctx, r3)
     r4 = ctx.rule("C08-R4", "errors are raised at the cursor or at the mark only; column = position - line_start + 1", floor=10)
     run_r4(ctx, r4)
+    r7 = ctx.rule("C08-R7", "once a token function consumed the token it marked, it raises errors at the mark, not at the cursor", floor=5)
+    run_r7(ctx, r7)
     r6 = ctx.rule("C08-R6", "a token that leaves locating its error to the caller commits the error with the cursor still on the token", floor=3)
     run_r6(ctx, r6)
     from .c02 import run_r2 as c02_r2
